@@ -6,6 +6,7 @@
 
 mod c14;
 mod c15;
+mod c16;
 mod c17;
 mod c18;
 mod driver;
@@ -101,6 +102,7 @@ fn main() {
         let code = match cmd {
             "C14" => c14::replay(&doc),
             "C15" => c15::replay(&doc),
+            "C16" => c16::replay(&doc),
             "C17" => c17::replay(&doc),
             "C18" => c18::replay(&doc),
             _ => {
@@ -114,6 +116,7 @@ fn main() {
     let code = match cmd {
         "C14" => c14::run(tier, seed),
         "C15" => c15::run(tier, seed),
+        "C16" => c16::run(tier, seed),
         "C17" => c17::run(tier, seed),
         "C18" => c18::run(tier, seed),
         _ => {
